@@ -125,6 +125,50 @@ theorem step_tinv (cfg : Config S) (hdt : 0 ≤ cfg.dt) (P : NodeId → Proto S 
         · exact hfin _ hs
         · exact hs
 
+theorem stepRaised_tinv (cfg : Config S) (hdt : 0 ≤ cfg.dt) (P : NodeId → Proto S σ) (w : World S σ)
+    (hw : WInv w) (h : TInv cfg w) : TInv cfg (stepRaised cfg P w) := by
+  unfold stepRaised
+  split
+  · exact h
+  · have hi : WInv (if w.initialized then w else initialise cfg P w) ∧
+        TInv cfg (if w.initialized then w else initialise cfg P w) := by
+      split
+      · exact ⟨hw, h⟩
+      · refine ⟨(initialise_inv cfg P w hw).1, ?_⟩
+        unfold initialise
+        simp only
+        have e := (ext_logAll cfg Obs.handlerInit (by intro h n cb t e; cases e) cfg.handlers
+          { w with initialized := true }).trans
+          (ext_callbackAll cfg P .initialize (List.range cfg.nNodes) _)
+        exact TInv.ext e (TInv.congr (w := w) rfl (Int.le_refl _) h)
+    generalize (if w.initialized then w else initialise cfg P w) = w1 at hi
+    obtain ⟨hw1, ht1⟩ := hi
+    simp only
+    split
+    · unfold finalise
+      split
+      · exact ht1
+      · simp only
+        have e := (ext_callbackAll cfg P .finish (List.range cfg.nNodes) w1).trans
+          (ext_logAll cfg Obs.handlerFinal (by intro h n cb t e; cases e) cfg.handlers _)
+        exact TInv.congr (w := logAll Obs.handlerFinal cfg.handlers
+          (callbackAll cfg P .finish (List.range cfg.nNodes) w1)) rfl (Int.le_refl _) (TInv.ext e ht1)
+    · split
+      · exact ht1
+      · rename_i e rest hq
+        have hle : w1.loop.now ≤ e.ts := hw1.ge_now e (by rw [hq]; exact List.mem_cons_self)
+        have hp : TInv cfg (popped e rest w1) :=
+          TInv.congr (w := w1) rfl (reportedTime_mono cfg (w' := popped e rest w1) hle) ht1
+        exact TInv.ext (ext_execEv cfg hdt P e (popped e rest w1)) hp
+
+theorem reachableT_tinv {cfg : Config S} (hdt : 0 ≤ cfg.dt) {P : NodeId → Proto S σ} {w : World S σ}
+    (h : ReachableT cfg P w) : TInv cfg w := by
+  induction h with
+  | init => exact init_tinv cfg P
+  | step hr ih => exact step_tinv cfg hdt P _ (reachableT_inv hdt hr) ih
+  | ext n p _ ih => exact TInv.ext (ext_runProg cfg n p _) ih
+  | raised hr ih => exact stepRaised_tinv cfg hdt P _ (reachableT_inv hdt hr) ih
+
 theorem reachable_tinv {cfg : Config S} (hdt : 0 ≤ cfg.dt) {P : NodeId → Proto S σ} {w : World S σ}
     (h : Reachable cfg P w) : TInv cfg w := by
   exact h.rec_inv (init_tinv cfg P)
